@@ -121,7 +121,7 @@ func explore(args []string) {
 				}
 			}
 		}
-		res, err := sym.Explore(p, name, sym.ExploreOpts{Workers: *workers, MaxPaths: *maxPaths, Progress: true,
+		res, err := sym.Explore(p, name, sym.ExploreOpts{Workers: *workers, MaxPaths: *maxPaths, Progress: *verbose,
 			Cfg: sym.Config{SolverKind: *solver, SolverTimeout: *timeout, Params: pm}})
 		if err != nil {
 			fmt.Fprintln(os.Stderr, "error:", err)
